@@ -133,10 +133,16 @@ def _limits():
     resource.setrlimit(resource.RLIMIT_AS, (MEM_LIMIT, MEM_LIMIT))
 
 
-def run_cmd(cmd, cwd, timeout, env=None):
+def _limits_big():
+    # trace extraction for a counterexample needs more memory than the plain verdict
+    os.setsid()
+    resource.setrlimit(resource.RLIMIT_AS, (MEM_LIMIT * 5 // 2, MEM_LIMIT * 5 // 2))
+
+
+def run_cmd(cmd, cwd, timeout, env=None, big=False):
     t0 = time.time()
     p = subprocess.Popen(cmd, cwd=cwd, env=env or ENV, stdout=subprocess.PIPE, stderr=subprocess.STDOUT,
-                         text=True, preexec_fn=_limits, errors='replace')
+                         text=True, preexec_fn=_limits_big if big else _limits, errors='replace')
     try:
         out, _ = p.communicate(timeout=timeout)
         timed_out = False
@@ -229,7 +235,8 @@ def run_harness(crate_dir, h, scratch, playback=False):
         cmd += h['args'].split()
     if playback:
         cmd += ['-Z', 'concrete-playback', '--concrete-playback=print']
-    rc, out, wall, timed_out = run_cmd(cmd, crate_dir, timeout)
+        timeout = timeout * 2
+    rc, out, wall, timed_out = run_cmd(cmd, crate_dir, timeout, big=playback)
     os.makedirs(os.path.join(scratch, 'logs'), exist_ok=True)
     with open(os.path.join(scratch, 'logs', f"{os.path.basename(crate_dir)}__{name}{'.playback' if playback else ''}.log"), 'w') as f:
         f.write(out)
@@ -299,8 +306,10 @@ def playback(crate_dir, res, scratch):
         f.write('}\n')
     results = []
     for body, harness, tn in tests:
-        dm = re.search(r'/// Check for `[^`]*`: "((?:[^"\\]|\\.)*)"', body)
-        desc = dm.group(1) if dm else ''
+        dm = re.search(r'/// Check for `[^`]*`: (.*)$', body, re.M)
+        desc = re.sub(r'\s+', ' ', dm.group(1).strip().strip('"')) if dm else ''
+        if re.search(r'/// Check for `cover`', body):
+            continue  # reachability witnesses need no replay
         rc, out, wall, to = run_cmd(['cargo', 'kani', 'playback', '-Z', 'concrete-playback', '--', tn,
                                      '--nocapture', '--test-threads', '1'], pdir, 600)
         compiled = 'running 1 test' in out or 'test result' in out
@@ -527,8 +536,9 @@ def run_property(prop, tier, spec, py_jobs=None):
                     continue
                 p = by_desc.get(c['desc'])
                 if p is None:
-                    # Kani emits one test per failed check; fall back to any test of this harness
-                    p = pb[0] if pb else None
+                    # Kani emits one test per failed check; fall back to any non-cover test of this harness
+                    cands = [x for x in pb if not x['check_desc'].startswith('COVER: ')]
+                    p = cands[0] if cands else None
                 if p is None:
                     infra.append(f"{r['harness']}: no playback for {key}")
                     continue
@@ -572,6 +582,13 @@ def run_property(prop, tier, spec, py_jobs=None):
         if not os.environ.get('VERIF_KEEP'):
             shutil.rmtree(scratch, ignore_errors=True)
 
+    if os.environ.get('VERIF_CHECK_PLAYBACK'):
+        # build-only self test of the replay-printing code: no verdict, no evidence
+        for i in infra:
+            log(f'[{prop}] {i}')
+        return 2 if infra else 0
+    if not results:
+        infra.append('no solver job ran')
     # ---- evidence -------------------------------------------------------------------------------
     wall = time.time() - t0
     samples = []
